@@ -822,6 +822,11 @@ func (c *SpecCtx) callExpr(e *ECall) SVal {
 		}
 		x, y := argv(0), argv(1)
 		fake := &Activation{g: g}
+		// content equality must imply equality of the abstractions: force the
+		// extensionality axiom of ByteSeq into the query
+		g.useByteSeq()
+		g.noteAbsHeap("$beq-1")
+		g.noteAbsHeap("$beq-2")
 		return SVal{T: fake.strEq(c.st, x.T, y.T), Ty: tyBoolT}
 	case "isnil":
 		if !need(1) {
